@@ -71,16 +71,11 @@ func (fr *frame) stringOf(t types.Type, v value, verb byte) []value {
 		return fr.stringOf(x.t, x.v, verb)
 	case sv:
 		if x.k == types.Bool {
-			if decideBool(x) {
-				return strBytes("true")
-			}
-			return strBytes("false")
+			return strBytes("<symbool>")
 		}
-		r := concInt(x, "fmt")
-		if kindSigned(x.k) {
-			return strBytes(fmt.Sprintf("%d", r))
-		}
-		return strBytes(fmt.Sprintf("%d", uint64(r)))
+		// formatting must not fork paths (error texts and log lines are never
+		// inspected by the code under test): a symbolic integer prints as a placeholder
+		return strBytes("<sym>")
 	case bool:
 		return strBytes(fmt.Sprintf("%v", x))
 	case *value:
@@ -183,11 +178,16 @@ func (fr *frame) sprintf(format value, argv value) value {
 		switch verb {
 		case 'd', 'x', 'X', 'c', 'o', 'b', 'q', 'U':
 			if s, isS := v.(sv); isS && s.k != types.Bool {
-				r := concInt(s, "fmt")
-				if kindSigned(s.k) {
-					v = mkConc(types.Int64, uint64(r))
+				if fr.i.exactFmt {
+					r := concInt(s, "fmt")
+					if kindSigned(s.k) {
+						v = mkConc(types.Int64, uint64(r))
+					} else {
+						v = mkConc(types.Uint64, uint64(r))
+					}
 				} else {
-					v = mkConc(types.Uint64, uint64(r))
+					out = append(out, strBytes("<sym>")...)
+					continue
 				}
 			}
 			if _, _, isInt := concKind(v); isInt {
@@ -204,8 +204,17 @@ func (fr *frame) sprintf(format value, argv value) value {
 				}
 				if bs != nil || isStr(v) {
 					hb := make([]byte, len(bs))
+					symb := false
 					for k, e := range bs {
+						if _, isS := e.(sv); isS && !fr.i.exactFmt {
+							symb = true
+							break
+						}
 						hb[k] = uint8(concInt(e, "fmt-hex"))
+					}
+					if symb {
+						out = append(out, strBytes("<symhex>")...)
+						continue
 					}
 					out = append(out, strBytes(fmt.Sprintf(spec, hb))...)
 					continue
